@@ -159,6 +159,8 @@ def main(tier):
     import bounds
     bounds.check(rep, {'mem_zero'}, 'MEM', 2)
     bounds.check_len_width(rep, {'mem_zero'}, 'MEM', 4)
+    import stridecover
+    stridecover.check(rep, 'MEM', {'mem_zero'}, 8)
     return rep.finish()
 
 
